@@ -23,6 +23,8 @@ def run(c):
     r5(c)
     r6(c)
     r7(c)
+    r8(c)
+    r9(c)
 
 
 def _is_put(node, qname):
@@ -357,3 +359,73 @@ def r7(c):
             bad = n
     c.check("C12.R7", bad is None, repo.loc(m, bad if bad is not None else fn), "PickleSafeException.from_exc/plain-data", f"`{norm(bad)[:60] if bad is not None else ''}` keeps the original exception "
             "object on the pickled instance", key_text="orig-exc-kept")
+
+
+def r8(c):
+    repo = c.repo
+    c.rule("C12.R8", "the id a result is delivered under is the id that was submitted: in _pool_worker the TaskResult is built around `<task>.payload` of the task taken off the task "
+                     "queue itself (not a string / regex rendition of it made for tracing), and the invoked function receives that same payload; in the single-process arm of "
+                     "irun it is the loop variable over the submitted ids. Parallel.run keys success/fail by that id, so a rewritten id collapses or renames entries")
+    m = repo.module(MOD)
+    fn = repo.func(MOD, "_pool_worker")
+    c.count("functions", 2)
+    pv = Provenance(fn)
+    gets = [x for x in calls_in(fn) if isinstance(x.func, ast.Attribute) and x.func.attr == "get" and norm(x.func.value) == fn.args.args[2].arg] if len(fn.args.args) >= 3 else []
+    trs = [x for x in calls_in(fn) if call_name(x).split(".")[-1] == "TaskResult"]
+    if not gets or not trs:
+        raise AnchorError("_pool_worker: task_queue.get() / TaskResult(...) not found")
+    for x in trs:
+        a = x.args[1] if len(x.args) > 1 else kwarg(x, "device_id")
+        v = pv.resolve_alias(a) if a is not None else None
+        ok = isinstance(v, ast.Attribute) and v.attr == "payload" and any(o is gets[0] for o in pv.origin_calls(v.value, through_calls=False))
+        c.check("C12.R8", bool(ok), repo.loc(m, x), "_pool_worker/TaskResult(id)", f"the result is labelled with `{norm(a) if a is not None else None}`, not with the payload of the task taken from the queue: "
+                "ids that are not strings come back changed (tuples collapse onto one key, integers become strings) and Parallel.run files the outcomes under the wrong ids",
+                key_text="result-id")
+    ir = repo.func(MOD, "Parallel.irun")
+    pvi = Provenance(ir)
+    single = [x for x in calls_in(ir) if call_name(x).split(".")[-1] == "TaskResult"]
+    for x in single:
+        a = x.args[1] if len(x.args) > 1 else kwarg(x, "device_id")
+        ok = False
+        if isinstance(a, ast.Name):
+            ok = any(d.kind == "for" and not d.index for d in pvi.rd.defs(a))
+        c.check("C12.R8", ok, repo.loc(m, x), "irun/single-process/TaskResult(id)", f"the single-process result is labelled with `{norm(a) if a is not None else None}`, not with the submitted id being "
+                "iterated", key_text="result-id-single")
+    c.floor("C12.R8", "TaskResult constructions", len(trs) + len(single), 2)
+
+
+def r9(c):
+    repo = c.repo
+    c.rule("C12.R9", "typestate of the task queue in irun: open -> closed by <queue>.close(); no worker process is started in state closed (ordering over the statement sequence and "
+                     "loop nesting: every `.start()` of a pool process precedes the close, and the close is not followed by / enclosed in a loop that starts processes). Closing "
+                     "makes the feeder thread close the parent's end of the pipe; a replacement worker forked afterwards dies on its first get() and the ids still queued are never "
+                     "processed")
+    m = repo.module(MOD)
+    fn = repo.func(MOD, "Parallel.irun")
+    c.count("functions")
+    gm = GuardMap(fn)
+    puts = [x for x in calls_in(fn) if isinstance(x.func, ast.Attribute) and x.func.attr == "put" and isinstance(x.func.value, ast.Name)]
+    if not puts:
+        raise AnchorError("irun: task queue (put of the tasks) not found")
+    tq = puts[0].func.value.id
+    closes = [x for x in calls_in(fn) if isinstance(x.func, ast.Attribute) and x.func.attr == "close" and norm(x.func.value) == tq]
+    starts = [x for x in calls_in(fn) if isinstance(x.func, ast.Attribute) and x.func.attr == "start" and not x.args]
+    c.floor("C12.R9", "process starts in irun", len(starts), 2)
+    if not closes:
+        c.holds("C12.R9", repo.loc(m, fn), f"irun/{tq}.close", "the task queue is never closed explicitly", trivial=True)
+        return
+    for cl in closes:
+        bad = None
+        for st in starts:
+            loops_st = [l for l in gm.in_loop(st) if not any(l is l2 for l2 in gm.in_loop(cl))]      # loops around the start that do not contain the close
+            # started after the close in program order, or inside a loop (sibling / later) that begins after the close
+            first = loops_st[0] if loops_st else st
+            if ordk(first) > ordk(cl) or (loops_st and any(ordk(x_) > ordk(cl) for x_ in [st])):
+                bad = st
+            # close and start inside one common loop: the start of a later iteration follows the close
+            common = [l for l in gm.in_loop(st) if any(l is l2 for l2 in gm.in_loop(cl))]
+            if common:
+                bad = st
+        c.check("C12.R9", bad is None, repo.loc(m, cl), f"irun/{tq}.close-before-start", f"`{norm(cl)}` is followed by `{norm(bad)[:50] if bad is not None else ''}` (line "
+                f"{getattr(bad, 'lineno', 0) if bad is not None else 0}): a worker started after the queue was closed cannot read its tasks; with max_tasks the ids still queued get no outcome",
+                key_text="start-after-close")
